@@ -455,6 +455,7 @@ private:
       std::vector<Compactor, AllocCompactor>&& compactors, const Comparator& comparator);
 
   static void check_preamble_ints(uint8_t preamble_ints, uint8_t num_levels);
+  static void check_k(uint16_t k);
   static void check_serial_version(uint8_t serial_version);
   static void check_family_id(uint8_t family_id);
 
